@@ -267,7 +267,6 @@ LOOP_INVARIANTS = {
             "forall(lambda j: not (0 <= j and j < _i) or not self.pat[j])",
         ],
         "havoc": ["self.calls", "self.inOrder", "self.r.core.p.coupledIteration"],
-        "fresh": {"converged": "bool"},
     },
 }
 
